@@ -234,7 +234,18 @@ def check_batch(args) -> Dict[str, Any]:
         problems.append({"kind": kind, "batch": bi, **({"rebuild": True} if rebuild else {}), **kw})
 
     try:
-        if named and named.startswith("shared:"):
+        ckw: Dict[str, Any] = {}
+        if named == "novalidate":
+            # a naturally aligned definition file compiled with alignment validation switched off (file option / --no_val_align):
+            # nothing needs padding, so every output - and the size the compiler records - is what it is with validation on
+            ckw = {"validate_alignment": False}
+            prog = defx.Program({"root.yaml": {"compiler_options": {"VALIDATE_ALIGNMENT": "false"},
+                                               "struct_defs": {"PT": {"fields": {"x": "int32", "y": "int32"}}, "Q8": {"fields": {"d": "double", "n": "int32", "m": "int32"}}},
+                                               "message_defs": {"POSE": {"id": 6000, "fields": {"p": "PT", "q": "double[4]", "n": "int32", "m": "int32"}},
+                                                                "TAIL": {"id": 6001, "fields": {"h": "Q8[2]", "t": "char[8]", "e": "PT"}},
+                                                                "ONE": {"id": 6002, "fields": {"v": "int64"}}, "NONE_": {"id": 6003, "fields": None}}}})
+            meta = {}
+        elif named and named.startswith("shared:"):
             # one name in two TABLES of one file (the parser keeps host / module ids apart from constants, strings, aliases and
             # structs): every output keeps both values apart
             kind = named.split(":")[1]
@@ -285,7 +296,7 @@ def check_batch(args) -> Dict[str, Any]:
 
                 valx.compile_file(paths["root"], "gen", os.path.join(d, "gen"), python=True, c_lang=True, javascript=True, matlab=True)
             else:
-                paths = defx.compile_program(prog, d, name="gen")
+                paths = defx.compile_program(prog, d, name="gen", **ckw)
         except core.HarnessError:
             raise
         except Exception as e:
@@ -293,7 +304,7 @@ def check_batch(args) -> Dict[str, Any]:
                 stats["names_refused"] = 1
                 return {"problems": [], "stats": stats}
             return {"problems": [{"kind": "batch-rejected", "exc": f"{type(e).__name__}: {str(e)[:300]}", "batch": bi, **({"rebuild": True} if rebuild else {})}], "stats": stats}
-        p = defx.parse_model(paths["root"])
+        p = defx.parse_model(paths["root"], **ckw)
         sp = defx.sig_parser(p)
         sp["lens"] = {n: {f.name: f.length for f in dd.fields} for coll in (p.struct_defs, p.message_defs) for n, dd in coll.items()}
         user = {n for n, dd in sp["defs"].items() if "core_defs" not in dd["src"]}
@@ -429,8 +440,11 @@ def run(tier: str) -> int:
     batches = [(i, b) for i, b in enumerate(core.chunks(core.shuffled(seqs, "c04"), 250))]
     multi = [b for b in batches if SHAPES[b[0] % len(SHAPES)] != "single"]
     rebuilds = [(i, b, "rebuild") for i, b in (multi[:4] if tier == "quick" else multi)]
-    names = [(9100 + i, [], "named", "shared:" + k) for i, k in enumerate(("constant", "string", "alias", "struct", "struct-message", "message-struct"))]
-    names += [(9000 + i, [], "named", n) for i, n in enumerate(("type_id", "type_name", "type_hash", "type_source", "type_def", "type_size", "hexdump", "size_type"))]
+    names = [(9200, [], "named", "novalidate")]
+    names += [(9100 + i, [], "named", "shared:" + k) for i, k in enumerate(("constant", "string", "alias", "struct", "struct-message", "message-struct"))]
+    names += [(9000 + i, [], "named", n) for i, n in enumerate(("type_id", "type_name", "type_hash", "type_source", "type_def", "type_size", "hexdump", "size_type",
+                                                                             # words another target language reserves (legal in Python, C and JavaScript)
+                                                                             "end", "otherwise", "persistent"))]
     res = core.pmap(check_batch, batches + rebuilds + names)
     core.close_pool()
     totals: Dict[str, int] = {}
